@@ -201,6 +201,88 @@ def gen_history(rng, kind, thorough=False, related=False):
     return {"kind": kind, "meta": meta, "ops": out, "cs": ["o", ""], "ws": ["F", []], "reuse": reuse, "rel": rel}
 
 
+def flock_safe_ops(ops):
+    """The ops of an undisciplined history without those starts that would create a path whose descriptor an interrupted
+    acquisition may still hold (open and flock'ed: on the unchanged code a set while Running never closes it): the real,
+    unscripted flock of such a create fails with EWOULDBLOCK -- behaviour of the environment, not of the code under
+    test, and absent from the model.  States are tracked as if every call succeeded, which over-approximates Running."""
+    out = []
+    state, cur, running, leaked = "Await", None, None, set()
+    for o in ops:
+        if o[0] == "set":
+            name = strip_uri(o[1])
+            if state == "Running":
+                leaked.add(running)
+            state = "Armed" if name else "Await"
+            cur = name if name else cur
+        elif o[0] == "start" and state == "Armed":
+            if cur in leaked:
+                continue
+            state, running = "Running", cur
+        elif o[0] == "stop" and state == "Running":
+            state = "Armed"
+        out.append(o)
+    return out
+
+
+def gen_undisciplined(rng, thorough=False):
+    """C14 ONLY.  A raw history in which at least one `set` is issued WHILE THE DEVICE IS RUNNING (the runtime does this:
+    acquire_configure on a running runtime calls storage_set on the running storage -- known finding of C08), followed by
+    start / append* / stop: 2..5 acquisitions, the stop between two of them left out with probability 0.6 (once for
+    certain), so the next set meets a Running device; storage_set then overwrites the state with the driver's answer
+    (Armed) without stopping it, and the next start opens the new file on the same device object.
+    Every path of such a history is DISTINCT (non-empty ones) and a start that would re-create the path of an
+    interrupted acquisition is dropped (flock_safe_ops): the interrupted acquisition's descriptor stays open and
+    holds its flock on the unchanged code, so a later create of the SAME path would fail at the real flock -- an effect of
+    the environment the model (flock fails only by script) does not have.  Names are still related (extensions / strict
+    prefixes of earlier ones, both spellings).  The life-cycle noise of gen_history is added; no stop is inserted."""
+    ext = EXT["raw"]
+    ncycles = rng.choice([2, 2, 3, 3, 4, 5])
+    forced = rng.randrange(ncycles - 1)          # after this acquisition the stop is left out for certain
+    names, rel, ops = [], [], []
+    for c in range(ncycles):
+        for _ in range(20):
+            name, how = related_name(rng, names, c, ext)
+            if name == "" and c != forced and c != forced + 1 or name and name not in names:
+                break
+        else:
+            name, how = "u%d%s" % (c, ext), "fresh"
+        names.append(name)
+        rel.append(how)
+        uri = ("file://" if rng.random() < 0.5 else "") + name
+        ops.append(["set", uri])
+        if rng.random() < 0.1:
+            ops.append(["set", ("file://" if rng.random() < 0.5 else "") + name])
+        if c != forced and rng.random() < 0.07:
+            continue                       # configured, never started
+        ops.append(["start"])
+        napp = rng.choice([1, 1, 2, 3, 5, 8]) if not thorough else rng.randrange(1, 10)
+        if c != forced and rng.random() < 0.1:
+            napp = 0
+        for _ in range(napp):
+            data, frames = make_packet(rng, rng.randrange(1, 6), 64 if not thorough else 300)
+            ops.append(["append", data.hex(), frames])
+        if c == forced or (c < ncycles - 1 and rng.random() < 0.6):
+            continue                       # no stop: the next set is issued while Running
+        if rng.random() < 0.85:
+            ops.append(["stop"])
+    for _ in range(rng.choice([0, 0, 1, 2])):
+        r = rng.random()
+        pos = rng.randrange(0, len(ops) + 1)
+        if r < 0.15:
+            ops.insert(pos, ["stop"])
+        elif r < 0.40:
+            ops.insert(pos, ["start"])
+        elif r < 0.6:
+            data, frames = make_packet(rng, 1, 16)
+            ops.insert(pos, ["append", data.hex(), frames])
+        elif r < 0.85:
+            ops.insert(pos, ["envopen"])
+        else:
+            ops.insert(pos, ["envclose", rng.randrange(0, 2)])
+    return {"kind": "raw", "meta": None, "ops": flock_safe_ops(ops), "cs": ["o", ""], "ws": ["F", []], "reuse": False, "rel": rel, "undisciplined": True}
+
+
 def gen_structured(rng, kind, variant=0):
     """Two acquisitions on one device with the rest of the process opening a descriptor right after each start (and, in
     the odd variants, closing it again before the stop): if a start leaves the device with a number it has already
@@ -486,14 +568,21 @@ def acquisitions(case, impl):
     """The acquisitions of a raw history as the CALLER sees them (HAL answers only): an acquisition begins with a start
     that answered ok/Running and goes to the path of the last set that answered ok; it collects the packets whose
     append answered ok/Running and ends at a stop, at the first append that did not answer ok (the device has stopped
-    itself) or at the close."""
+    itself), at a `set` issued while it is Running (undisciplined stream: storage_set replaces the state Running by the
+    driver's answer Armed / AwaitingConfiguration without stopping the device, so the caller sees the acquisition end
+    there: "interrupted") or at the close."""
     cur = None               # (path, op index of the set, uri as given)
     acq = None
     done = []
     for k, (o, r) in enumerate(zip(case["ops"], impl["ops"])):
         res = r["res"]
-        if o[0] == "set" and res and res[0] == "ok":
-            cur = (strip_uri(o[1]), k, o[1])
+        if o[0] == "set":
+            if acq is not None and res and res[1] != "Running":
+                acq["interrupted"] = k
+                done.append(acq)
+                acq = None
+            if res and res[0] == "ok":
+                cur = (strip_uri(o[1]), k, o[1])
         elif o[0] == "start":
             if res == ("ok", "Running") and acq is None and cur is not None:
                 acq = {"path": cur[0], "set_op": cur[1], "uri": cur[2], "start_op": k, "pkts": [], "ok": True, "failed": None}
@@ -523,13 +612,18 @@ def oracle_c14(case, impl):
       (untouched)  follows from (exact) applied to every path: the data of an acquisition to P is still there after
                    all LATER acquisitions to OTHER paths.  Earlier acquisitions to the same P are superseded (file_create
                    truncates): counted, not judged.
-    'Same path' = the same string after file:// stripping (the generator produces no ./, //, links)."""
+    'Same path' = the same string after file:// stripping (the generator produces no ./, //, links).
+    Only HAL answers and file bytes are looked at -- no descriptor, no flock / close call: a history of the undisciplined
+    stream (set while Running) leaves the interrupted acquisition's descriptor open on the unchanged code (consequence
+    of the C08 finding "configure while running"), which is not C14's business."""
     v = []
-    stats = {"acq": 0, "superseded": 0, "checked": 0, "checked_failed_acq": 0}
+    stats = {"acq": 0, "superseded": 0, "checked": 0, "checked_failed_acq": 0, "interrupted_acq": 0, "acq_after_interrupted": 0}
     if case["kind"] != "raw" or impl is None or impl["exit"] != (0, 0):
         return v, stats
     done = acquisitions(case, impl)
     stats["acq"] = len(done)
+    stats["interrupted_acq"] = sum(1 for a in done if "interrupted" in a)
+    stats["acq_after_interrupted"] = sum(1 for i, a in enumerate(done) if i and "interrupted" in done[i - 1] and a["pkts"])
     last = {}
     for a in done:
         if a["path"] in last:
@@ -708,12 +802,17 @@ def export_case(case):
             ops.append(["append", o[1], o[2]])
         else:
             ops.append(list(o))
-    return {"kind": case["kind"], "meta": case["meta"], "cs": case["cs"], "ws": case["ws"], "reuse": case.get("reuse", False), "ops": ops}
+    out = {"kind": case["kind"], "meta": case["meta"], "cs": case["cs"], "ws": case["ws"], "reuse": case.get("reuse", False), "ops": ops}
+    if case.get("undisciplined"):
+        out["undisciplined"] = True          # C14 stream with `set` while Running: shrinking may keep such sets
+    return out
 
 
 def import_case(obj):
     c = {"kind": obj["kind"], "meta": obj.get("meta"), "cs": obj.get("cs", ["o", ""]), "ws": obj.get("ws", ["F", []]),
          "reuse": obj.get("reuse", False), "ops": [list(o) for o in obj["ops"]]}
+    if obj.get("undisciplined"):
+        c["undisciplined"] = True
     return c
 
 
@@ -746,8 +845,10 @@ def shrink_case(ctx, orac, impl, case, bad, counter=[0], budget=160):
     left = [budget]
 
     def test(obj):
-        if left[0] <= 0 or not obj["ops"] or not disciplined(obj["ops"]):
+        if left[0] <= 0 or not obj["ops"] or not (obj.get("undisciplined") or disciplined(obj["ops"])):
             return False
+        if obj.get("undisciplined") and len(flock_safe_ops(obj["ops"])) != len(obj["ops"]):
+            return False                   # would re-create the path of an interrupted acquisition (real flock conflict)
         left[0] -= 1
         counter[0] += 1
         tag = "min%d" % counter[0]
@@ -853,6 +954,18 @@ def fold(ctx, orac, impl, results, prop, label):
             ctx.count("op:" + o[0])
         for how in set(case.get("rel", [])):
             ctx.count("paths:" + how)
+        if prop == "C14":
+            st_, nswr = None, 0
+            for o, r in zip(case["ops"], (io or {}).get("ops", [])):
+                if o[0] == "set" and st_ == "Running":
+                    nswr += 1
+                if r["res"] and r["res"][1] != "-":
+                    st_ = r["res"][1]
+            if nswr:
+                ctx.count("case:with-set-while-running")
+                for _ in range(nswr):
+                    ctx.count("op:set-while-running")
+            ctx.count("stream:" + ("undisciplined" if case.get("undisciplined") else "disciplined"))
         for e in set(t for t in case["ws"][1] + [case["ws"][0]] if is_err_tok(t)):
             ctx.count("errno:" + ("EIO" if e == "E" else e) + (":persistent" if case["ws"][0] == e else ":transient"))
         for ch in set(case["cs"][1] + case["cs"][0]):
@@ -1049,7 +1162,10 @@ def run(ctx):
         "pwrite returns any count 0..n or fails, as scripted (a create can fail at each of its three system calls)",
         "std::filesystem calls of side-by-side-tiff (exists/create_directory/status) always succeed (not interposed)",
         "StorageProperties passed to set() come from storage_properties_init (non-NULL uri, valid json); malloc does not fail",
-        "the runtime does not reconfigure a running device (no set while Running; C08's subject) -- stated as hypothesis `disciplined` in the theorems",
+        "the runtime does not reconfigure a running device (no set while Running; C08's subject) -- stated as hypothesis `disciplined` in the C16 "
+        "theorems and built into the shape of C14_exact's histories (set, start, append*, stop cycles); C14's separate UNDISCIPLINED stream of "
+        "generated histories (set while Running, then start/append*/stop) lies outside that hypothesis and is covered by the model/implementation "
+        "correspondence and the independent file oracle only, not by a theorem",
         "storage_close is exercised as storage_stop + driver_close_device; its final write to the freed object (D10, C11) is left out",
         "64-bit wrap of offsets is not modelled (offsets are unbounded naturals)",
         "access/unlink in file_is_writable are not interposed and are taken to succeed; an existing file is taken to be writable; a failed "
@@ -1105,6 +1221,20 @@ def run(ctx):
                     "extracted model: every open (path, success) and pwrite (file, offset, length, result), HAL status and device state per call, final "
                     "bytes of every file read back from disk (flock/ftruncate/close calls, descriptor numbers and the descriptor table are C16's observables). Non-trivial = at least one append and >= 4 system calls; "
                     "distinct = distinct (scripts, op list).")
+        ctx.rule += (" SECOND STREAM, C14 only ('undisciplined', counted as stream:undisciplined / case:with-set-while-running / op:set-while-running): raw "
+                     "histories of 2..5 acquisitions in which at least one `set` is issued WHILE THE DEVICE IS RUNNING (the stop before it is left out; the "
+                     "HAL's storage_set then replaces Running by the driver's answer Armed without stopping the device -- the runtime does this when "
+                     "acquire_configure is called while running: known finding of C08), followed by start / append* / stop on the new path; all paths of such "
+                     "a history are distinct (the interrupted acquisition's descriptor stays open and locked, so re-creating ITS path would fail at the "
+                     "real flock, which the model does not have) but related (extensions / prefixes, both spellings); same short-write scripts, 15 % with one "
+                     "failing create. These histories are OUTSIDE the hypothesis of the theorems (C14_exact speaks of set/start/append*/stop cycles; C16's "
+                     "theorems assume `disciplined`): they are judged by the independent oracle (per path the last acquisition configured for it -- an "
+                     "acquisition ends where a set meets it Running -- the file is exactly its packets; file bytes and HAL answers only, no descriptors) and "
+                     "by the differential against the extracted model, which is total on them (same observables as the first stream: opens, pwrites with "
+                     "offsets, status/state, file bytes; never flock/close/descriptor table). They are not fed to C16.")
+        ctx.notes.append("C14 runs a second generated stream with `set` while Running (outside the theorems' hypothesis: correspondence + oracle only); on "
+                         "the unchanged code such a history leaves the interrupted acquisition's descriptor open (C08 finding) -- deliberately invisible "
+                         "to C14 (no descriptor observable) and never given to C16")
         n = 60000 if thorough else 6000
         for i in range(n):
             c = gen_history(rng, "raw", thorough, related=True)
@@ -1113,6 +1243,15 @@ def run(ctx):
                 k = rng.randrange(0, 8)
                 c["cs"] = ["o", "o" * k + rng.choice("ffllt" + TRUNC_LETTERS)]
             cases.append(c)
+        nu = 15000 if thorough else 1500
+        for i in range(nu):
+            c = gen_undisciplined(rng, thorough)
+            short_write_script(rng, c)
+            if rng.random() < 0.15:
+                k = rng.randrange(0, 10)
+                c["cs"] = ["o", "o" * k + rng.choice("ffllt" + TRUNC_LETTERS)]
+            cases.append(c)
+        ctx.extra["c14_undisciplined_generated"] = nu
         ctx.sample({"kind": "raw", "ops": [o[:2] if o[0] != "append" else ["append", "%d bytes" % (len(o[1]) // 2)] for o in cases[0]["ops"]],
                     "ws": cases[0]["ws"], "cs": cases[0]["cs"]})
     else:
